@@ -97,7 +97,7 @@ package dnsforward
 //@   ensures served: !lastCIDErr && old(admitted(s.access, pctx.Addr.Addr(), cur(lastCID))) && !old(len(pctx.Req.Question) == 1 && hostBlocked(s.access, aghnet.NormalizeDomain(pctx.Req.Question[0].Name), pctx.Req.Question[0].Qtype)) ==> err == nil
 
 //@ func (s *Server) clientIDFromDNSContext(pctx *proxy.DNSContext) (clientID string, err error)
-//@   property C16
+//@   property C16, C03
 //@   modifies lastCID, lastCIDErr
 //@   ensures no-clientid-on-plain: pctx.Proto != proxy.ProtoHTTPS && pctx.Proto != proxy.ProtoTLS && pctx.Proto != proxy.ProtoQUIC ==> clientID == "" && err == nil
 //@   ensures doh-bad-path-fails: old(pctx.Proto == proxy.ProtoHTTPS && dohBad(pctx)) ==> err != nil
@@ -176,6 +176,35 @@ package dnsforward
 //@   ghost at entry: defaultsDone = false
 //@   callsite github.com/AdguardTeam/AdGuardHome/internal/dnsforward.newAccessCtx(allowed, disallowed, blocked) requires built-from-the-completed-settings: defaultsDone && blocked == s.conf.BlockedHosts && allowed == s.conf.AllowedClients && disallowed == s.conf.DisallowedClients
 //@   requires s.dnsFilter != nil ==> !held(s.dnsFilter.confMu) && !rheld(s.dnsFilter.confMu)
+//@   modifies *
+
+// The access lists are kept twice: compiled in s.access and raw in s.conf (from which Prepare rebuilds s.access on every
+// in-place restart, Reconfigure(nil)).  Whoever installs a new manager must store the lists it was built from, or the
+// next restart silently brings the old lists back.  lastAcc*: the most recent manager built and its sources.
+// (Assumed frames: the configuration-modified callback - home.onConfigModified - does not change the server, and
+// newAccessCtx only fills the manager it allocates.)
+//@ ghost var lastAcc *accessManager
+//@ ghost var lastAccAllowed []string
+//@ ghost var lastAccDisallowed []string
+//@ ghost var lastAccHosts []string
+//@ func newAccessCtx(allowed []string, blocked []string, blockedHosts []string) (a *accessManager, err error)
+//@   ghost at return: lastAcc = a
+//@   ghost at return: lastAccAllowed = allowed
+//@   ghost at return: lastAccDisallowed = blocked
+//@   ghost at return: lastAccHosts = blockedHosts
+//@   callsites-only
+//@   modifies lastAcc, lastAccAllowed, lastAccDisallowed, lastAccHosts
+//@ func (fieldcall) ServerConfig_ConfigModified()
+//@   modifies nothing
+// (validateAccessSet only builds local uniqueness sets from the request: assumed frame.)
+//@ func validateAccessSet(list *accessListJSON) (err error)
+//@   callsites-only
+//@   modifies nothing
+//@ func (s *Server) handleAccessSet(w http.ResponseWriter, r *http.Request)
+//@   property C03
+//@   callsites-only
+//@   requires nolocks()
+//@   ensures must-keep-the-raw-lists-of-the-installed-manager: s.access != old(s.access) ==> s.access == lastAcc && s.conf.AllowedClients == lastAccAllowed && s.conf.DisallowedClients == lastAccDisallowed && s.conf.BlockedHosts == lastAccHosts
 //@   modifies *
 
 // The configuration-modified callback writes the configuration file and takes this package's configuration lock again
